@@ -6,7 +6,7 @@
    The JSON clause of C01 is NOT modelled (encoding/json is library code): it is checked by the
    correspondence run only (Go json round trip of every generated value) — see DESIGN.md. *)
 From Coq Require Import NArith List.
-From LLRP Require Import Codec.Schema Codec.Encode Codec.Decode Codec.Wf Codec.SchemaTable Codec.RoundTrip.
+From LLRP Require Import Codec.Schema Codec.Encode Codec.Decode Codec.Wf Codec.SchemaTable Codec.RoundTrip Codec.WfBool.
 Import ListNotations.
 Open Scope N_scope.
 
@@ -40,6 +40,11 @@ Theorem C01_reencode_same_bytes : forall t msg tid fs ss bs fuel v',
   decode t fuel msg tid bs = Some v' -> encode t v' = Some bs.
 Proof. exact reencode_same_bytes. Qed.
 Print Assumptions C01_reencode_same_bytes.
+
+(* the executable domain check used on every compared case is sound for the domain *)
+Theorem C01_domain_check_sound : forall t v, wfvb t v = true -> wfv t v.
+Proof. exact wfvb_sound. Qed.
+Print Assumptions C01_domain_check_sound.
 
 (* instantiated at the LLRP table *)
 Theorem C01_llrp_roundtrip : forall msg tid fs ss bs fuel,
@@ -85,8 +90,7 @@ Definition example_report : value :=
 Example C01_example_wf : wfv llrp_table example_report /\ depth example_report = 3%nat.
 Proof.
   split; [|reflexivity].
-  vm_compute.
-  repeat first [reflexivity | discriminate | split | (left; reflexivity) | (right; reflexivity) | constructor].
+  apply wfvb_sound. vm_compute. reflexivity.
 Qed.
 
 Example C01_example_bytes :
